@@ -16,7 +16,9 @@ Definition tab2 (r c : nat) (f : nat -> nat -> Q) : arr2 :=
   mkA2 r c (flat_map (fun i => map (fun j => f i j) (seq 0 c)) (seq 0 r)).
 Definition qsum (n : nat) (f : nat -> Q) : Q := sumn (K:=QO) n f.
 
-Record cmode := mkCM { cm_core : arr3; cm_U : option arr2 }.
+(* cm_sc: magnitude of the operands whose product produced the core (its floating-point round-off in the implementation is
+   proportional to it, not to the core's own entries, which may have cancelled) *)
+Record cmode := mkCM { cm_core : arr3; cm_U : option arr2; cm_sc : Q }.
 Record answer := mkAns { an_k : nat; an_Q : arr2; an_R : arr2; an_A : arr2 }.   (* A = argument the implementation passed *)
 
 Definition qtolR : Q := 1 # 100000.
@@ -24,16 +26,22 @@ Definition close_q (x y : Q) : bool := Qle_bool (Qabs (x - y)) (qtolR * (1 + Qab
 (* matrices are compared relative to their largest entry (the implementation's round-off scales with it; a zero matrix
    must be reproduced exactly) *)
 Definition maxabs_q (l : list Q) : Q := fold_right (fun x acc => if Qle_bool acc (Qabs x) then Qabs x else acc) 0 l.
-Definition arr2_close (a b : arr2) : bool :=
-  let sc := maxabs_q (m_dat b) in
+Definition arr2_close_sc (fl : Q) (a b : arr2) : bool :=
+  let sc0 := maxabs_q (m_dat b) in
+  let sc := if Qle_bool sc0 fl then fl else sc0 in
   Nat.eqb (m_r a) (m_r b) && Nat.eqb (m_c a) (m_c b) &&
   forallb (fun p => Qle_bool (Qabs (fst p - snd p)) (qtolR * sc)) (combine (m_dat a) (m_dat b)) &&
   Nat.eqb (length (m_dat a)) (length (m_dat b)).
+Definition arr2_close : arr2 -> arr2 -> bool := arr2_close_sc 0.
+(* an array computed as a product of operands of magnitude sc carries round-off of about 1e-16 sc per accumulated term in
+   the implementation; entries below nfloor * sc are compared on that absolute scale (1e-5 * 1e-8 * sc) *)
+Definition nfloor : Q := 1 # 100000000.
+Definition nat_q (n : nat) : Q := inject_Z (Z.of_nat n).
 
 (* state: modes, remaining oracle answers, conjunction of the argument checks so far *)
 Record st := mkSt { s_modes : list cmode; s_ans : list answer; s_ok : bool }.
 Definition upd_mode (k : nat) (ms : list cmode) (m : cmode) : list cmode := upd k ms m.
-Definition nth_mode (k : nat) (ms : list cmode) : cmode := nth k ms (mkCM (mkA3 0 0 0 []) None).
+Definition nth_mode (k : nat) (ms : list cmode) : cmode := nth k ms (mkCM (mkA3 0 0 0 []) None 0).
 
 (* factor_orthogonalize(mu): Q, R = qr(U); U <- Q; core <- einsum("ijk,aj->iak", core, R) *)
 Definition factor_step (mu : nat) (s : st) : st :=
@@ -46,7 +54,8 @@ Definition factor_step (mu : nat) (s : st) : st :=
       | an :: rest =>
           let c := cm_core m in
           let c' := tab3 (a_d0 c) (an_k an) (a_d2 c) (fun p a q => qsum (a_d1 c) (fun j => Qred (g2 (an_R an) a j * g3 c p j q))) in
-          mkSt (upd_mode mu (s_modes s) (mkCM c' (Some (an_Q an)))) rest (s_ok s && arr2_close U (an_A an))
+          mkSt (upd_mode mu (s_modes s) (mkCM c' (Some (an_Q an)) (Qred (nat_q (a_d1 c) * maxabs_q (m_dat (an_R an)) * cm_sc m))))
+               rest (s_ok s && arr2_close U (an_A an))
       end
   end.
 
@@ -61,8 +70,9 @@ Definition left_step (mu : nat) (s0 : st) : st :=
       let A := tab2 (a_d0 c * a_d1 c) (a_d2 c) (fun a q => g3 c (a / a_d1 c) (a mod a_d1 c) q) in
       let c' := tab3 (a_d0 c) (a_d1 c) (an_k an) (fun p j a => g2 (an_Q an) (p * a_d1 c + j) a) in
       let cn' := tab3 (an_k an) (a_d1 cn) (a_d2 cn) (fun a j q => qsum (a_d0 cn) (fun p => Qred (g2 (an_R an) a p * g3 cn p j q))) in
-      mkSt (upd_mode (S mu) (upd_mode mu (s_modes s) (mkCM c' (cm_U m))) (mkCM cn' (cm_U nx))) rest
-           (s_ok s && arr2_close A (an_A an))
+      mkSt (upd_mode (S mu) (upd_mode mu (s_modes s) (mkCM c' (cm_U m) 1))
+                     (mkCM cn' (cm_U nx) (Qred (nat_q (a_d0 cn) * maxabs_q (m_dat (an_R an)) * cm_sc nx)))) rest
+           (s_ok s && arr2_close_sc (nfloor * cm_sc m) A (an_A an))
   end.
 
 (* right_orthogonalize(mu): QR of right_unfolding(core)^T *)
@@ -76,8 +86,9 @@ Definition right_step (mu : nat) (s0 : st) : st :=
       let A := tab2 (a_d1 c * a_d2 c) (a_d0 c) (fun a p => g3 c p (a / a_d2 c) (a mod a_d2 c)) in
       let c' := tab3 (an_k an) (a_d1 c) (a_d2 c) (fun a j q => g2 (an_Q an) (j * a_d2 c + q) a) in
       let cp' := tab3 (a_d0 cp) (a_d1 cp) (an_k an) (fun p j a => qsum (a_d2 cp) (fun t => Qred (g3 cp p j t * g2 (an_R an) a t))) in
-      mkSt (upd_mode (mu - 1) (upd_mode mu (s_modes s) (mkCM c' (cm_U m))) (mkCM cp' (cm_U pv))) rest
-           (s_ok s && arr2_close A (an_A an))
+      mkSt (upd_mode (mu - 1) (upd_mode mu (s_modes s) (mkCM c' (cm_U m) 1))
+                     (mkCM cp' (cm_U pv) (Qred (nat_q (a_d2 cp) * maxabs_q (m_dat (an_R an)) * cm_sc pv)))) rest
+           (s_ok s && arr2_close_sc (nfloor * cm_sc m) A (an_A an))
   end.
 
 Fixpoint iter_up (f : nat -> st -> st) (from n : nat) (s : st) : st :=   (* from, from+1, ..., from+n-1 *)
